@@ -133,7 +133,7 @@ Tag(r) == r                                  \* body token written with a revisi
 IsChain(ch) == \A k \in 1..(Len(ch) - 1) : ch[k].g > ch[k + 1].g
 RECURSIVE ChainsFrom(_)                      \* strictly generation-decreasing sequences starting below generation g
 ChainsFrom(g) == {<<>>} \cup UNION { {<<r>> \o c : c \in ChainsFrom(r.g)} : r \in {x \in Rev : x.g < g} }
-AllGoodChains == ChainsFrom(MaxGen + 1) \ {<<>>}
+AllGoodChains(mg) == ChainsFrom(mg + 1) \ {<<>>}     \* (parameterised: TLC evaluates constant definitions eagerly)
 AllBadChains(S) == {<<q[1], q[2]>> : q \in {z \in S \X S : z[1] # z[2] /\ z[2].g >= z[1].g}}
 
 -----------------------------------------------------------------------------
@@ -157,7 +157,7 @@ Settle(i, m, t, tf, bt) ==
           /\ win' = [win EXCEPT ![i] = NoWin]
      ELSE \E w \in WinResults(tf) :
             /\ cur' = [cur EXCEPT ![i] = w] /\ flags' = [flags EXCEPT ![i] = FlagsOf(tf, w)]
-            /\ wb' = [wb EXCEPT ![i] = bt[w]]
+            /\ wb' = [wb EXCEPT ![i] = IF cfg.lvl = "db" /\ tf[w].del THEN Nil ELSE bt[w]]   \* a stored tombstone is served bare
             /\ IF t = tf THEN win' = [win EXCEPT ![i] = WinOf(t, w)]
                ELSE \E w2 \in WinResults(t) : win' = [win EXCEPT ![i] = WinOf(t, w2)]
 Same(i) == UNCHANGED <<tree, mem, cur, flags, win, wb>>
